@@ -42,6 +42,8 @@ def base_shapes(tier):
             S.Shape("rmix2", [F("G", "req", [F("H", "opt", [F("X", "req", "int32"), F("Y", "opt", "string")])]), F("Z", "opt", "float64")], desc="req{opt{req,opt}},opt"),
             S.Shape("rsame1", [F("Score", "opt", "int32"), F("Pos", "req", [F("X", "opt", "int32"), F("Y", "req", "int32")])], desc="same leaf type under different ancestry: opt, req{opt,req}"),
             S.Shape("rsame2", [F("A", "req", [F("N", "opt", "int64")]), F("B", "opt", [F("M", "opt", "int64"), F("K", "req", "int64")]), F("C", "opt", "int64")], desc="same leaf type under different ancestry: req{opt}, opt{opt,req}, opt"),
+            S.Shape("rcat", [F("A", "req", [F("Bc", "req", [F("X", "req", "int32")], col="bc")], col="a"), F("Ab", "req", [F("C", "opt", [F("Y", "req", "int32")], col="c")], col="ab"), F("Z", "opt", "int64")],
+                    desc="group paths a.bc and ab.c: equal when written without separators"),
             S.Shape("rmix3", [F("G", "opt", [F("H", "req", [F("X", "opt", "bool")])])], desc="opt{req{opt}}")]
     if S.TAGGED:
       out += [S.Shape("rtag1", [F("ID", "req", "int64", col="id"), F("HomeAddress", "opt", [F("Street", "req", "string", col="street_name"), F("Zip", "opt", "int32", col="zip")], col="home_address"),
